@@ -145,6 +145,9 @@ class Model:
 
     # ------------------------------------------------------------------ indexing
     def _index(self) -> None:
+        from sa.minieval import MiniEval
+
+        MiniEval.repo_modules = {m.name: m.tree for m in self.modules.values()}
         for m in self.modules.values():
             self._index_module(m)
 
